@@ -50,8 +50,15 @@ package crypto
 //@       (forall a int :: 0 <= a && a < len(keys) ==> keys[a] != nil && sigs[a] != nil && SigOK(seq(*keys[a]), seq(msg), seq(*sigs[a])))
 
 //@ -- AggregateVerify: nil signature, empty / unordered / out-of-range signers, nil or undecodable publics are reported as errors. Total.
+//@ -- C02 (T-CRYPTO): AggSigner(sig, msg, n, pos, index, key) reads "sig is an aggregate signature on msg that verifies under the signer transcript of
+//@ -- n entries whose entry number pos is (index, key)" (collectAggregateSigners builds exactly that transcript: count, then index and key bytes of every
+//@ -- signer; the weighted public key and the challenge are functions of it). Uninterpreted; the structural part (non-nil, in range) is visible in the code.
+//@ uninterp AggSigner(sig mathint, msg mathint, n mathint, pos mathint, index mathint, key mathint) bool
 //@ assume func AggregateVerify(sig, publics, signers, message)
 //@   modifies nothing
+//@   ensures [c02-agg] result == nil ==> sig != nil && len(signers) > 0 && (forall i int :: 0 <= i && i < len(signers) ==>
+//@       0 <= signers[i] && signers[i] < len(publics) && publics[signers[i]] != nil &&
+//@       AggSigner(seq(*sig), seq(message), len(signers), i, signers[i], seq(*publics[signers[i]])))
 
 //@ -- KeyMultPubPriv panics on an undecodable point or a non-canonical scalar.
 //@ assume func KeyMultPubPriv(pub, priv)
